@@ -130,6 +130,14 @@ def Descr.bhrz (n : Nat) (d : Descr) : BHRZ03Cert :=
     ((d.gs.filter fun g => g.kind == .ray).map (·.coords))
 def Descr.h79 (n : Nat) (d : Descr) : H79Cert := mkH79 n d.nCons d.nEq
 
+/-- `<affine> <lin> <cons> <points> <k> <r_0 … r_{k-1}>`: the members of a real `BHRZ03_Certificate` -/
+def parseBC (ts : Toks) : Option BHRZ03Cert :=
+  match ts with
+  | a :: l :: c :: p :: k :: rest =>
+    some { affineDim := tokNat a, linSpaceDim := tokNat l, numConstraints := tokNat c, numPoints := tokNat p,
+           numRaysNullCoord := (rest.take (tokNat k)).map tokNat }
+  | _ => none
+
 /-! ### normalised rows -/
 
 def gcdL (l : List Int) : Nat := l.foldl (fun g a => Nat.gcd g a.natAbs) 0
@@ -280,7 +288,19 @@ def judgeBhrz : M Unit := do
   let ys : YMin := match getField fs "YS" with | some t => parseYMin nc t | none => yMin.getD default
   let xu : List CRow := match getField fs "XU" with | some t => toCRows (takeRows nc t).1 | none => xs.cs
   let dya := parseDescr n ((getField fs "CYA").getD []); let dxa := parseDescr n ((getField fs "CXA").getD [])
-  let yCert := dya.bhrz n; let xCert := dxa.bhrz n
+  -- the certificates as the library computed them in place (journalled members); the recomputation from the
+  -- minimised descriptions of copies is only the fallback (BHRZ03_Certificate depends on the representation)
+  let bc (tag : String) (dflt : BHRZ03Cert) : BHRZ03Cert := ((getField fs tag).bind parseBC).getD dflt
+  let yCert := bc "BCY" (dya.bhrz n); let xCert0 := dxa.bhrz n
+  -- the precheck: when the recomputed certificate of x does not reproduce the library's decision (the numbers
+  -- `compare(x)` computes are not observable and depend on the representation, KF-C08-5/6/9/10) this is reported
+  -- as `precheck` and the replay goes on with a certificate that reproduces the real decision
+  let realStab : Option Bool := (getField fs "PRE").map fun t => kvB t "stab"
+  let xCert : BHRZ03Cert := match realStab with
+    | some b => if yCert.isStabilizing xCert0 == b then xCert0
+                else if b then { yCert with affineDim := yCert.affineDim + 1 } else yCert
+    | none => xCert0
+  let lin := max yCert.linSpaceDim xCert0.linSpaceDim
   let hk := parseSet n ((getField fs "HK").getD [])
   let h79rows : List CRow := match getField fs "H79" with | some t => toCRows (takeRows nc t).1 | none => []
   let dh := parseDescr n ((getField fs "CH79").getD [])
@@ -289,23 +309,25 @@ def judgeBhrz : M Unit := do
   let dt := parseDescr n ((getField fs "CT").getD [])
   let tkRows := tk.map (fromK1 nnc n)
   let dummy : Cand := { cs := [], cert := yCert }
-  let realCand : Cand := { cs := tkRows, cert := dt.bhrz n }
+  let tCert := bc "BCT" (dt.bhrz n)
+  let hCert := bc "BCH" (dh.bhrz n)
+  let realCand : Cand := { cs := tkRows, cert := tCert }
   let x : Poly := { nnc := nnc, n := n, markedEmpty := x0.me, pendingGens := xs.pg, consUpToDate := xs.cu,
                     conSys := xs.cs, genSys := xs.gs }
   let ycx := subsetB n xk yk
   let o : BOracle := {
     yMin := yMin, xCons := xu, yCert := yCert, xCert := xCert, yContainsX := ycx, ySel := ys,
-    h79 := { cs := h79rows, cert := dh.bhrz n },
+    h79 := { cs := h79rows, cert := hCert },
     strictlyIntersects := fun c => !(subsetB n hk (toK1 nnc n c)) && feasible n (toK1 nnc n c ++ hk),
     containsH79 := fun cs => subsetB n hk (toK1s nnc n cs),
-    cert1 := fun _ => if tech == 1 then dt.bhrz n else yCert,
+    cert1 := fun _ => if tech == 1 then tCert else yCert,
     cand2 := if tech == 2 then realCand else dummy,
     cand3 := if tech == 3 then some realCand else none }
   let trivial := (getField fs "TRIVIAL").isSome
   match getField fs "PRE" with
   | some t =>
-    judge "precheck" (kvB t "stab" == yCert.isStabilizing xCert && kvB t "ycx" == ycx)
-      s!"real stab={kv t "stab"} ycx={kv t "ycx"} model stab={yCert.isStabilizing xCert} ycx={ycx} yCert={repr yCert} xCert={repr xCert}"
+    judge "precheck" (kvB t "stab" == yCert.isStabilizing xCert0 && kvB t "ycx" == ycx)
+      s!"lineality={lin} real stab={kv t "stab"} ycx={kv t "ycx"} model stab={yCert.isStabilizing xCert0} ycx={ycx} yCert={repr yCert} xCert={repr xCert0}"
   | none => pure ()
   match getField fs "SEL", getField fs "NSEL" with
   | some t1, some t2 =>
@@ -316,10 +338,10 @@ def judgeBhrz : M Unit := do
     judge "h79_set" (equivB n hk (toK1s nnc n rs)) "H79 is not the set of the selected constraints"
     -- the output contract of the technique that fired, on the real candidate
     if tech == 1 || tech == 2 || tech == 3 then
-      judge "accept_contract" (yCert.isStabilizing (dt.bhrz n) && !(subsetB n hk tk) && subsetB n tk hk && subsetB n xk tk)
-        s!"tech={tech} stabilizing={yCert.isStabilizing (dt.bhrz n)} containsH79={subsetB n hk tk} belowH79={subsetB n tk hk} above_x={subsetB n xk tk}"
+      judge "accept_contract" (yCert.isStabilizing tCert && !(subsetB n hk tk) && subsetB n tk hk && subsetB n xk tk)
+        s!"lineality={max lin tCert.linSpaceDim} tech={tech} stabilizing={yCert.isStabilizing tCert} containsH79={subsetB n hk tk} belowH79={subsetB n tk hk} above_x={subsetB n xk tk}"
     if tech == 4 then
-      judge "fallback_stabilizing" (yCert.isStabilizing (dh.bhrz n)) s!"yCert={repr yCert} H79 cert={repr (dh.bhrz n)}"
+      judge "fallback_stabilizing" (yCert.isStabilizing hCert) s!"lineality={max lin hCert.linSpaceDim} yCert={repr yCert} H79 cert={repr hCert}"
     -- is a rejection of the first technique explained by the model's own guards?
     if tech != 1 then
       let newCs := combiningNewCs nnc n ys.genSys h79rows rn
@@ -352,7 +374,14 @@ def judgeBhrz : M Unit := do
       let dy := parseDescr n ((getField fs "CY").getD []); let dr := parseDescr n ((getField fs "CR").getD [])
       if !trivial && !dy.empty && !dr.empty then
         if equivB n rkS yk then ok "cert_decrease"
-        else judge "cert_decrease" (certLessBhrz (dy.bhrz n) (dr.bhrz n)) s!"y={repr (dy.bhrz n)} result={repr (dr.bhrz n)}"
+        else
+          -- from the minimised descriptions of copies, and as the library computes it on the objects of the call
+          judge "cert_decrease" (certLessBhrz (dy.bhrz n) (dr.bhrz n))
+            s!"lineality={max (dy.bhrz n).linSpaceDim (dr.bhrz n).linSpaceDim} y={repr (dy.bhrz n)} result={repr (dr.bhrz n)}"
+          match (getField fs "BRY").bind parseBC, (getField fs "BRR").bind parseBC with
+          | some cy, some cr =>
+            judge "cert_decrease_inplace" (certLessBhrz cy cr) s!"lineality={max cy.linSpaceDim cr.linSpaceDim} y={repr cy} result={repr cr}"
+          | _, _ => pure ()
       IO.println s!"info {s.id} op=bhrz nnc={if nnc then 1 else 0} n={n} branch={repr res.branch} tech={tech} xrows={xs.cs.length} yrows={ys.conSys.length} ygens={ys.genSys.length} extrap={!(equivB n rkS xk)}"
 
 def endStep : M Unit := do
